@@ -499,7 +499,7 @@ def eval_abort_case(case):
                     state["sent"] = time.monotonic_ns()
                     os.kill(pid, sig)
 
-        r = pr.cond(argv, timeout=40, audit=audit, poll=poll)
+        r = pr.cond(argv, timeout=40, audit=audit, poll=poll, inherit_ignored=bool(case.get("inherit_ignored")))
         t_exit = time.monotonic_ns()
         sent = (ctl.injected is not None) if ctl else (state["sent"] is not None and not r["timed_out"])
         kills = []
@@ -577,6 +577,7 @@ def gen_abort_cases(seed, n):
         tasks.append(top)
         mode = rng.choice(["gated", "gated", "burst"])
         c = {"tasks": gen.dump(tasks), "target": "//:top", "jobs": rng.choice([None, 2, 3, 4, 8]), "mode": mode, "signal": rng.choice(["INT", "TERM"]), "seed": rng.randrange(1 << 30)}
+        c["inherit_ignored"] = rng.random() < 0.25
         if mode == "gated":
             c["after_quiescent"] = rng.choice([0, 0, 1, 2])
         else:
